@@ -23,8 +23,9 @@ ASSUMPTIONS = ["a failed re-authentication on a still-authenticated LIVE connect
                "credentials, but not for 'the session stays unauthenticated' (the earlier session is still valid); that clause is judged "
                "for fresh, peer-closed and expired sessions",
                "framing-level header flips (marker/size) may end in a timeout, which Device.authenticate must still map to AuthenticationError"]
-ANCHORS = ["lan.py:_LanProtocolV3._get_local_key", "lan.py:_LanProtocolV3.authenticate", "lan.py:LAN.authenticate",
-           "base_device.py:Device.authenticate"]
+# reach anchors: only entry points this check calls itself or callbacks the event loop needs (robust against internal refactors);
+# that the mechanism was really exercised is demanded through MIN_NONTRIVIAL / MIN_HIST outcome counts
+ANCHORS = ["lan.py:LAN.authenticate", "base_device.py:Device.authenticate", "lan.py:LAN.send"]
 MIN_NONTRIVIAL = {"quick": 8000, "thorough": 200000}
 MIN_HIST = {"quick": {"genuine-ok": 40}, "thorough": {"genuine-ok": 800}}
 WORKERS = {"quick": 1, "thorough": 16}
@@ -60,6 +61,29 @@ def generate(ctx, rng):
         yield ("genuine-delayed", j), {"token": rng.randbytes(64), "key": rng.randbytes(32), "nonce": None, "reply_delay": delay,
                                        "key_form": rng.choice(["bytes", "hex"]), "token_form": "bytes", "prior": False,
                                        "tid": 20000 + j, "family": "genuine"}
+    # genuine handshakes whose derived session key has leading / trailing zero bytes or is all zeros / ones (nonce chosen against the key),
+    # and credentials given as raw bytes that happen to consist of ASCII hex digits, printable text or whitespace
+    for j, shape in enumerate(["lead0", "lead00", "trail0", "zero", "ones", "lead0000"] * (2 if quick else 30)):
+        key = rng.randbytes(32)
+        sk = bytearray(rng.randbytes(32))
+        if shape.startswith("lead"):
+            k = {"lead0": 1, "lead00": 2, "lead0000": 4}[shape]
+            sk[:k] = bytes(k)
+        elif shape == "trail0":
+            sk[-1] = 0
+        elif shape == "zero":
+            sk = bytearray(32)
+        else:
+            sk = bytearray(b"\xff" * 32)
+        yield ("genuine-keyshape", j), {"token": rng.randbytes(64), "key": key, "nonce": bytes(a ^ b for a, b in zip(sk, key)),
+                                        "key_form": rng.choice(["bytes", "hex"]), "token_form": "bytes", "prior": False, "tid": 42000 + j, "family": "genuine"}
+    texty = [(b"0123456789abcdef" * 4, b"00112233445566778899aabbccddeeff"), (b"ABCDEF0123456789" * 4, b"FFEEDDCCBBAA99887766554433221100"),
+             (b"a" * 64, b"b" * 32), (b" " * 64, b"0" * 32), (b"token-" * 10 + b"abcd", b"key-" * 8), (b"0x" * 32, b"0x" * 16),
+             (bytes(range(48, 58)) * 6 + b"0123", b"deadbeef" * 4)]
+    for j, (tok, key) in enumerate(texty):
+        for form in ("bytes", "hex"):
+            yield ("genuine-texty", j, form), {"token": tok, "key": key, "nonce": rng.randbytes(32), "key_form": form, "token_form": form,
+                                               "prior": False, "tid": 43000 + 2 * j + (form == "hex"), "family": "genuine"}
     # a genuine reply that reaches the client in two or three TCP segments (every split point of the 72-byte packet)
     for split in range(1, 72):
         yield ("genuine-split", split), {"token": rng.randbytes(64), "key": rng.randbytes(32), "nonce": rng.randbytes(32), "splits": [split],
